@@ -431,6 +431,9 @@ RecLoop(files, k, a) ==
       opened == Append(a.evs, EvFs("c", "open", f.ck, 0, 0, 0))
   IN
   IF a.prevEnd # -1 /\ a.prevEnd # f.ck THEN [a EXCEPT !.res = "gap"]
+  ELSE IF f.tail = "bad"
+       THEN \* a complete record that no longer decodes (checksum / type / tag): InvalidData, the rest is not zeros
+            [a EXCEPT !.res = "corrupt", !.evs = opened]
   ELSE IF f.tail # "none" /\ ~a.cfg.tr THEN [a EXCEPT !.res = "tail", !.evs = opened]
   ELSE
   LET trunc == f.tail # "none"
